@@ -382,7 +382,7 @@ def state_precedence(prog, an, rep):
     stv = None
     for t in an.test_nodes(f, lambda e: isinstance(e, ast.Compare) and
                            isinstance(e.ops[0], ast.In)):
-        stv = src(t.ast.comparators[0])
+        stv = src(t.matched.comparators[0])
     if stv is None:
         raise AnalysisError('anchor-missing membership tests in ' + f.qname)
     lits = ('SUCCESSFUL', 'INPROGRESS', 'FAILED')
@@ -469,10 +469,10 @@ def unwanted_workflows(prog, an, rep):
     cmp_ = [t for t in an.test_nodes(
         f, lambda e: isinstance(e, ast.Compare) and rvar in src(e) and
         isinstance(e.ops[0], (ast.Gt, ast.GtE, ast.Lt, ast.LtE)))]
-    ok = len(cmp_) == 1 and isinstance(cmp_[0].ast.ops[0], ast.Gt) and \
-        src(cmp_[0].ast.left) == "%s[conclusion]" % rvar and \
+    ok = len(cmp_) == 1 and isinstance(cmp_[0].matched.ops[0], ast.Gt) and \
+        src(cmp_[0].matched.left) == "%s[conclusion]" % rvar and \
         "best_runs[workflow_id]['conclusion']" in \
-        src(cmp_[0].ast.comparators[0])
+        src(cmp_[0].matched.comparators[0])
     rep.evaluated()
     rep.check(ok, R, f.qname + ': a run replaces the kept one only if '
               'strictly better, per workflow id', f.where(),
